@@ -22,9 +22,10 @@ class Unextractable(Exception):
 
 
 class St:
-    __slots__ = ("know", "vars", "consts", "moved", "eff")
+    __slots__ = ("know", "vars", "consts", "moved", "eff", "pvars")
 
-    def __init__(self, know=None, vars=None, consts=None, moved=False, eff=None):
+    def __init__(self, know=None, vars=None, consts=None, moved=False, eff=None, pvars=None):
+        self.pvars = dict(pvars or {})   # locals that hold a position taken with get_pos(): name -> offset of that character from the cursor (0, -1, ..)
         self.know = dict(know or {})
         self.vars = dict(vars or {})
         self.consts = dict(consts or {})
@@ -32,15 +33,16 @@ class St:
         self.eff = dict(eff or {})   # assignments of literals to fields of `self` on this path: field -> ("=", v) | ("+", k) | "?"
 
     def copy(self):
-        return St(self.know, self.vars, self.consts, self.moved, self.eff)
+        return St(self.know, self.vars, self.consts, self.moved, self.eff, self.pvars)
 
     def key(self):
-        return (tuple(sorted(self.know.items())), tuple(sorted(self.vars.items())), tuple(sorted(self.consts.items())))
+        return (tuple(sorted(self.know.items())), tuple(sorted(self.vars.items())), tuple(sorted(self.consts.items())), tuple(sorted(self.pvars.items())))
 
     def shift(self):
         s = St(consts=self.consts, moved=True)
         s.know = {k - 1: v for k, v in self.know.items() if k >= 1}
         s.vars = {n: o - 1 for n, o in self.vars.items() if o >= 1}
+        s.pvars = {n: o - 1 for n, o in self.pvars.items()}
         return s
 
     def learn(self, off, v):
@@ -73,6 +75,7 @@ def join(a, b):
     s.know = {k: kjoin(v, b.know.get(k)) for k, v in a.know.items() if kjoin(v, b.know.get(k)) is not None}
     s.vars = {k: v for k, v in a.vars.items() if b.vars.get(k) == v}
     s.consts = {k: v for k, v in a.consts.items() if b.consts.get(k) == v}
+    s.pvars = {k: v for k, v in a.pvars.items() if b.pvars.get(k) == v}
     s.moved = a.moved and b.moved
     s.eff = {k: (v if b.eff.get(k) == v else "?") for k, v in a.eff.items()}
     for k in b.eff:
@@ -102,7 +105,8 @@ class Cursor:
         self.F = F
         self.viol = {}       # key -> (msg, where)
         self.sites = {}      # key -> where (every consume site analysed)
-        self.pos_sites = {}  # key -> (where, knowledge about the character under the cursor when a position is taken)
+        self.pos_sites = {}
+        self.pos_uses = {}       # "<fn>|<error kind>|<local>" -> (where, {(offset of the remembered character from the cursor | None, kind under the cursor)})  # key -> (where, knowledge about the character under the cursor when a position is taken)
         self.pos_ordinals = {}
         self.pos_kinds = {}  # key -> set of kind sets (None = nothing known) seen at the site
         self.depth = 0
@@ -596,6 +600,16 @@ class Cursor:
             for kind, s, v in self.run(e.get("e"), st) if e.get("e") is not None else [("normal", st, None)]:
                 outs.append(("return", s, v) if kind == "normal" else (kind, s, v))
             return outs
+        if k == "Assign" and peel(e["l"]).get("k") == "Path" and peel(e["l"]).get("res_kind") == "Local":
+            res = []
+            for kind, s, v in self.run(e["r"], st):
+                if kind == "normal":
+                    s = s.copy()
+                    self._bind_pos(s, peel(e["l"])["res"], e["r"])
+                    res.append(("normal", s, None))
+                else:
+                    res.append((kind, s, v))
+            return res
         if k in ("Assign", "AssignOp") and peel(e["l"]).get("k") == "Field" and ekey(peel(e["l"])["e"]).lstrip("&*") == "self":
             # `self.row += 1`, `self.col = 0`: recorded as the path's effect on the field (literals only)
             outs = self.run(e["r"], st)
@@ -670,6 +684,13 @@ class Cursor:
                 return [(kind, s, ("tag", tag) if kind == "normal" else v) for kind, s, v in outs]
             if any(LEXER in (t or "") and (t or "").startswith("&mut") for t in (self.F.fns.get(c, {}).get("param_tys") or [])):
                 raise Unextractable(f"`{c}` takes the lexer by &mut through a plain call")
+            if c.endswith("LexError::new") and e["args"] and peel(e["args"][0]).get("k") == "Path" and peel(e["args"][0]).get("res_kind") == "Local":
+                # an error that ends at a remembered position: which character is that, seen from the cursor?
+                nm = peel(e["args"][0])["res"]
+                what = next((short(y.get("res") or "") for a_ in e["args"][1:] for y in walk(a_, pats=False) if y.get("k") == "Path" and "ErrorType::" in (y.get("res") or "")), "?")
+                for kind, s_, v in outs:
+                    if kind == "normal":
+                        self.pos_uses.setdefault(f"{short(self.fn)}|{what}|{nm}", (loc(e), set()))[1].add((s_.pvars.get(nm), s_.know.get(0)))
             return [(kind, s, None if kind == "normal" else v) for kind, s, v in outs]
         # generic: evaluate child expressions in order
         kids = []
@@ -683,6 +704,18 @@ class Cursor:
             kids += [x["e"] for x in e["fields"] if isinstance(x, dict) and isinstance(x.get("e"), dict)]
         outs = self.seq(kids, st)
         return [(kind, s, None if kind == "normal" else v) for kind, s, v in outs]
+
+    def _bind_pos(self, st, name, init):
+        """`name = self.get_pos()` / `name = <another position local>`: remember which character the position is of"""
+        x = peel(init)
+        while x.get("k") in ("DropTemps", "Use") or (x.get("k") == "MethodCall" and x["name"] == "clone" and not x["args"]):
+            x = peel(x.get("e") or x.get("recv"))
+        if x.get("k") == "MethodCall" and x["name"] == "get_pos" and not x["args"] and peel(x["recv"]).get("res") == "self":
+            st.pvars[name] = 0
+        elif x.get("k") == "Path" and x.get("res_kind") == "Local" and x.get("res") in st.pvars:
+            st.pvars[name] = st.pvars[x["res"]]
+        else:
+            st.pvars.pop(name, None)
 
     def stmt(self, s_, st):
         k = s_.get("k")
@@ -707,6 +740,7 @@ class Cursor:
                 m, _ = self.match_pat(s_["pat"], v, s)
                 lv = lit_value(s_["init"])
                 if m is not None and s_["pat"].get("k") == "PBinding":
+                    self._bind_pos(m, s_["pat"]["name"], s_["init"])
                     if isinstance(lv, int) and not isinstance(lv, bool):
                         m.consts[s_["pat"]["name"]] = lv
                     else:
@@ -821,6 +855,9 @@ class Cursor:
             lv = lit_value(a)
             if isinstance(lv, int) and not isinstance(lv, bool):
                 entry.consts[pn] = lv
+            a_ = peel(a)
+            if a_.get("k") == "Path" and a_.get("res_kind") == "Local" and a_.get("res") in st.pvars and pn:
+                entry.pvars[pn] = st.pvars[a_["res"]]
         saved_fn, saved_ctx = self.fn, self.ctx
         self.stack.append(self.fn)
         self.fn, self.ctx = c, [saved_ctx[-1]] if saved_ctx else []
@@ -836,6 +873,8 @@ class Cursor:
             back = St(know=s.know, vars=st.vars, consts=st.consts, moved=st.moved or s.moved)
             # variables of the caller that denoted cursor offsets are stale if the callee moved the cursor: drop them conservatively
             back.vars = {}
+            # ... and so are the positions: how far the callee moved the cursor is not tracked
+            back.pvars = {}
             res.append(("normal", back, v if (v and v[0] == "tag") else None))
         return self.merge(res)
 
